@@ -299,6 +299,18 @@ def _fault_node(kind, spec, rr):
     keycols = [c for c in data_cols if all(float(v).is_integer() for v in spec['data'][c]) and len(set(spec['data'][c])) >= 1]
     kc = rr.choice(keycols)
     vals = sorted(set(int(v) for v in spec['data'][kc]))
+    if kind == 'logit_choice_not_in_utilities' and rr.random() < 0.5:
+        # the choice column is valid on every row but ONE (first, last or a middle row); with and without availabilities
+        n_ = len(next(iter(spec['data'].values())))
+        alts = [1, 2, 4]
+        bad_row = rr.choice([0, 0, n_ - 1, rr.randrange(n_)])
+        bad_value = rr.choice([3.0, 7.0, -1.0, 1.5])
+        col = [float(rr.choice(alts)) for _ in range(n_)]
+        col[bad_row] = bad_value
+        spec['data']['ch_one_bad_row'] = col
+        av = None if rr.random() < 0.6 else [[a, ['num', 1.0]] for a in alts]
+        return (['loglogit', [[a, ['num', 0.1 * (i + 1)]] for i, a in enumerate(alts)], av, ['var', 'ch_one_bad_row'], 'log'],
+                [str(int(bad_value)) if float(bad_value).is_integer() else str(bad_value)], {})
     if kind == 'logit_choice_not_in_utilities':
         # drop one observed value from the alternatives
         missing_alt = rr.choice(vals)
@@ -440,8 +452,10 @@ def _plant_case(case, rec):
     for kind, (path, parent, slot) in picks:
         if (kind == 'draws_outside_mc' and wrapped == 'mc') or (kind == 'rv_outside_integrate' and wrapped == 'integrate'):
             continue
-        node, names, extra_betas = _fault_node(kind, base, rr)
-        fs = dict(base)
+        fbase = dict(base)
+        fbase['data'] = {k_: list(v_) for k_, v_ in base['data'].items()}
+        node, names, extra_betas = _fault_node(kind, fbase, rr)
+        fs = dict(fbase)
         fs['betas'] = dict(base['betas'])
         fs['betas'].update(extra_betas)
         def _dup(nd):
